@@ -61,6 +61,33 @@ def const_index_sites(prog: Program) -> Dict[str, int]:
     return out
 
 
+def split_state_updates(prog: Program) -> List[dict]:
+    """E9 over the whole package: in every coroutine, stores to instance / class state that are separated from the previous such store by a
+    suspension point - the places where a cancellation or a concurrent coroutine can observe one store without the other (the anchored
+    rules own the pairs that matter: C01.c, C07.d, C08.f, C10.g)."""
+    from .atomic import sections
+    out = []
+
+    def store(n):
+        if not isinstance(n, (ast.Assign, ast.AugAssign, ast.AnnAssign)):
+            return False
+        tg = n.targets if isinstance(n, ast.Assign) else [n.target]
+        return any(isinstance(t, ast.Attribute) and isinstance(t.value, ast.Name) and t.value.id in ("self", "cls") for t in tg)
+    for f in prog.all_functions():
+        if not isinstance(f.node, ast.AsyncFunctionDef) or f.module.is_test:
+            continue
+        try:
+            sec = sections(prog, f, store, store)
+        except Exception as e:          # an observation sweep never decides anything
+            out.append({"function": f.qual, "skipped": type(e).__name__})
+            continue
+        for n, dirty in sec.items():
+            if dirty:
+                out.append({"function": f.qual, "store": norm(n)[:70], "after_suspension": dirty[:3]})
+    return out
+
+
 def all_sweeps(prog: Program) -> dict:
     return {"neg_zero_slices": neg_zero_slices(prog), "asserts": asserts(prog), "retry_loops": retry_loops(prog),
-            "cursor_loops": cursor_loops(prog), "constant_index_sites_per_function": const_index_sites(prog)}
+            "cursor_loops": cursor_loops(prog), "constant_index_sites_per_function": const_index_sites(prog),
+            "state_updates_split_by_a_suspension_point": split_state_updates(prog)}
